@@ -23,6 +23,16 @@ func gen(t *rapid.T) Case {
 	return Case{Prog: p}
 }
 
+// union profile: scopes together with error handling and break/continue/return at every
+// position, so that scopes are left through every kind of exit (e.g. a catch block left by
+// continue inside a loop)
+var unionProfile = prog.Profile{Scopes: true, Control: true, Errors: true, MaxDepth: 4, MaxStmts: 4}
+
+func genUnion(t *rapid.T) Case {
+	p, _ := prog.Generate(t, unionProfile)
+	return Case{Prog: p}
+}
+
 func oracle(c Case, o *h.Obs) *h.Fail {
 	v := prog.Judge(c.Prog)
 	o.Key = v.Src
@@ -58,7 +68,11 @@ func TestC04(t *testing.T) {
 		// the thorough tier also explores larger programs
 		profile.MaxDepth++
 		profile.MaxStmts += 2
+		unionProfile.MaxDepth++
+		unionProfile.MaxStmts += 2
 	}
 	c.Rule("constructive generator, profile 'scopes': nested blocks of every kind over the name pool {a,b,c,d} with x=e, var x=e, reads p(id,x), existence probes, closures (named, stored, escaping), modules, recursion; non-trivial = the run contains a shadowing var/parameter/loop variable or an assignment creating a block-local binding AND a read of such a name after its scope ended; distinct by source text")
 	h.Run(c, "scopes", c.N(12000, 120000), gen, oracle)
+	c.Rule("exits: the same oracle over programs from the union of the scopes, control and errors profiles (scopes left by break/continue/return/throw from try bodies, catch and finally blocks, deferred calls)")
+	h.Run(c, "exits", c.N(8000, 80000), genUnion, oracle)
 }
